@@ -32,8 +32,8 @@ static A: vcore::alloc::Counting = vcore::alloc::Counting;
 static THOROUGH: OnceLock<bool> = OnceLock::new();
 /// set for the cases of the 2-deviation class: formats may run a lighter set of repeated leaf calls
 pub static LIGHT: std::sync::atomic::AtomicBool = std::sync::atomic::AtomicBool::new(false);
-/// set for the cases whose deviation is none / one field / a chunk edit / trailing data: the formats run their
-/// path-based whole-file consumers (thorough only) for these classes, not for prefixes and 2-deviation cases
+/// set for the cases whose deviation is none / one header-level field / a chunk edit / trailing data: the formats
+/// run their path-based whole-file consumers (thorough only) for these classes
 pub static HEAVY: std::sync::atomic::AtomicBool = std::sync::atomic::AtomicBool::new(false);
 pub fn heavy() -> bool {
     thorough() && HEAVY.load(std::sync::atomic::Ordering::Relaxed)
@@ -365,7 +365,7 @@ struct FormatSpace {
 }
 
 /// thorough: header-level sites per seed whose pairs are all enumerated (strided if a seed has more)
-const PAIR_SITES_T: usize = 48;
+const PAIR_SITES_T: usize = 40;
 /// the same for the additional (tier2) seeds of thorough
 const PAIR_SITES_T2: usize = 16;
 
@@ -388,7 +388,7 @@ impl FormatSpace {
         seeds.sort_by_key(|s| s.bytes.len());
         let b = match tier {
             Tier::Quick => Budget { sites: 120, vals: (0..VALS.len()).collect(), chunk_ops: 24, pair_sites: 0, pair_seeds: 0, near_dist: 0, near_sites: 0 },
-            Tier::Thorough => Budget { sites: usize::MAX / 4, vals: (0..VALS_T.len()).collect(), chunk_ops: 600, pair_sites: PAIR_SITES_T, pair_seeds: usize::MAX, near_dist: 3, near_sites: 400 },
+            Tier::Thorough => Budget { sites: usize::MAX / 4, vals: (0..VALS_T.len()).collect(), chunk_ops: 600, pair_sites: PAIR_SITES_T, pair_seeds: usize::MAX, near_dist: 3, near_sites: 160 },
         };
         // the seeds with the most header-level sites carry the 2-deviation class
         let mut by_hdr: Vec<usize> = (0..seeds.len()).collect();
@@ -424,6 +424,7 @@ impl FormatSpace {
                 chunk_ops: chunk_ops(s, b.chunk_ops, tier == Tier::Thorough),
                 pair_sites,
                 near_pairs,
+                near_vals: if s.tier2 { VALS2.to_vec() } else { VALS2N.to_vec() },
                 appends: if tier == Tier::Thorough { APPENDS.len() } else { 0 },
             });
         }
@@ -451,7 +452,7 @@ impl FormatSpace {
                 sandbox::SymServer::spawn(&|i, skip| {
                     let (k, d) = self.locate(i);
                     let s = &self.seeds[k];
-                    set_class_flags(&d);
+                    set_class_flags(s, &d);
                     match s.apply(&d) {
                         Some(input) => sb.run(input.len(), true, skip, false, &|rec: &mut Recorder| case_body(&*self.fmt, s, &input, rec, &sc.0)),
                         None => Default::default(),
@@ -487,9 +488,14 @@ impl FormatSpace {
 }
 
 /// deviation class switches read by the formats (set identically in the worker and in the symbolizer server)
-fn set_class_flags(d: &Dev) {
+fn set_class_flags(s: &Seed, d: &Dev) {
     LIGHT.store(matches!(d, Dev::Field2 { .. }), std::sync::atomic::Ordering::Relaxed);
-    HEAVY.store(!matches!(d, Dev::Field2 { .. } | Dev::Prefix(_)), std::sync::atomic::Ordering::Relaxed);
+    let heavy = match d {
+        Dev::Field2 { .. } | Dev::Prefix(_) => false,
+        Dev::Field { site, .. } => s.sites[*site].header,
+        _ => true,
+    };
+    HEAVY.store(heavy, std::sync::atomic::Ordering::Relaxed);
 }
 
 /// The one function through which both the worker and the symbolizer server enter a case: the
@@ -523,7 +529,7 @@ impl Space for FormatSpace {
             return r;
         };
         let (sc, sb, srv) = self.sb();
-        set_class_flags(&d);
+        set_class_flags(s, &d);
         let body = |rec: &mut Recorder| case_body(&*self.fmt, s, &input, rec, &sc.0);
         let name = self.fmt.name();
         let syms = self.syms.get_or_init(SymCache::new);
@@ -787,7 +793,7 @@ fn main() {
                 let classes: [(&str, u64); 7] = [
                     ("seed", 1),
                     ("prefix", x.prefixes.len() as u64),
-                    ("field", (x.field_sites.len() * x.vals.len()) as u64),
+                    ("field", x.field_cases()),
                     ("chunk", x.chunk_ops.len() as u64),
                     ("pair", x.pairs() * vv),
                     ("near", x.near_cases()),
@@ -801,7 +807,10 @@ fn main() {
                         let t0 = cpu();
                         for j in 0..m {
                             let i = base + off + (j * (n - 1)) / m.max(2).saturating_sub(1).max(1);
-                            let _ = sp.run(i.min(base + off + n - 1));
+                            let i = i.min(base + off + n - 1);
+                            if std::panic::catch_unwind(std::panic::AssertUnwindSafe(|| sp.run(i))).is_err() {
+                                println!("   PANIC in the harness at case #{i}: {}", sp.describe(i));
+                            }
                         }
                         let avg = (cpu() - t0) / m as f64;
                         let e = by_class.entry(name).or_insert((0.0, 0));
@@ -886,12 +895,12 @@ fn main() {
         encrypted hash/block/HET/BET tables: decrypt, patch, re-encrypt; no striding; sites beyond the first 2048 of a seed, which one seed has, take the 10 values of the quick tier) x 20 values {0,1,2,255,256,2^15,2^16-1,2^16,2^16-1<<16,2^30,2^31-1,2^31,2^32-1,field-1,field+1,file_len-1,file_len,file_len+1,rest,rest+1} (rest = bytes that follow the field); \
         chunk edits for every chunk (strided only above 600 chunks per seed): delete, duplicate, swap-with-next, 8 consistent payload resizes {-1,-2,-3,-4,+1,+4,empty,half} (own size field and enclosing chunks follow), \
         and per sibling group (top level / children of one container, <= 24 members, strided if larger) every pair of siblings exchanged and every pair deleted; \
-        2-field deviations: ALL pairs of <= 48 header-level sites of a primary seed (<= 16 of a tier2 seed; strided if a seed has more) x 6x6 values {0,2^32-1,2^31-1,2^31,field+1,file_len}, \
-        plus every pair of header-level sites at distance <= 3 in file order (the count/offset/size couples of one structure) among the first 400 header-level sites that is not in the all-pairs set x 8x8 values {0,1,2^31-1,2^31,2^32-1,field+1,file_len,2^16}. \
+        2-field deviations: ALL pairs of <= 40 header-level sites of a primary seed (<= 16 of a tier2 seed; strided if a seed has more) x 6x6 values {0,2^32-1,2^31-1,2^31,field+1,file_len}, \
+        plus every pair of header-level sites at distance <= 3 in file order (the count/offset/size couples of one structure) among the first 160 header-level sites that is not in the all-pairs set x 8x8 values {0,1,2^31-1,2^31,2^32-1,field+1,file_len,2^16} (tier2 seeds: the 6x6 grid). \
         Every case runs all entry points of the format in a forked child under the monitors: no panic, no abort/signal, no stack overflow, return within 50 s (engine watchdog 60 s), \
         no single allocation request and no peak live heap above 256 MiB + 4096 x input_len (requests above the limit are refused by the counting allocator). \
         Entry points of this tier beyond those of quick: MPQ header::find_header, MpqHeader::read, HET/BET/hash/hi-block table lookups on the opened archive, PatchChain::extract_files/get_chain_info, MutableArchive::find_file/load_attributes/verify_signature, \
-        and (seed, field, chunk-edit and trailing-data cases) ParallelArchive::open/extract_files_parallel/read_file_with_new_handle, rebuild_archive[list_only], compare_archives; PatchHeader::parse; compression::rle::decompress and two more expected sizes; \
+        and (seed, header-level field, chunk-edit and trailing-data cases) ParallelArchive::open/extract_files_parallel/read_file_with_new_handle, rebuild_archive[list_only], compare_archives; PatchHeader::parse; compression::rle::decompress and two more expected sizes; \
         M2Model::parse_chunked, resolve_bone_animations, AnimationManagerBuilder::from_model, embedded skins 1..3; SkinHeader/OldSkinHeader parsers; AnimFormatDetector/AnimHeader/AnimParser; CombinedAlphaMap::new on the parsed terrain chunks, AdtSet::load_from_path + merge (same classes, inputs <= 64 KiB); \
         blp_to_image of every level, BlpJpeg::full_jpeg, load_blp (with BLP0 mip files; same classes); DbcVersion::detect, DbcHeader/Wdb2Header/Wdb5Header::parse, CachedStringBlock. \
         A dying child is re-run without the call that killed it (up to 4 deaths per case) so that the other entry points of the case are still observed. \
@@ -935,7 +944,7 @@ fn main() {
                 "chunk_edit_kinds": {"delete": 1, "duplicate": 1, "swap_with_next": 1, "payload_resize": RESIZES.len(), "sibling_pair_swap": "all pairs of <= 24 siblings per group", "sibling_pair_delete": "all pairs of <= 24 siblings per group"},
                 "chunks_per_seed_max": 600,
                 "all_pairs_header_sites": {"primary_seed": PAIR_SITES_T, "tier2_seed": PAIR_SITES_T2, "value_grid": [VALS2.len(), VALS2.len()]},
-                "neighbour_pairs": {"distance": 3, "among_first_header_sites": 400, "value_grid": [VALS2N.len(), VALS2N.len()]},
+                "neighbour_pairs": {"distance": 3, "among_first_header_sites": 160, "value_grid": [VALS2N.len(), VALS2N.len()], "value_grid_tier2": [VALS2.len(), VALS2.len()]},
                 "trailing_data_kinds": APPENDS.len(),
                 "tier2_seeds": "additional thorough-only seeds: further writer versions / configurations / element counts / nested containers",
             }),
